@@ -160,6 +160,34 @@ theorem pending_kept_by_export_and_reset (pre mid : List Op) (e : Ent)
   rw [Spec.after_append, List.mem_filter]
   exact ⟨h1, by simp [hd]⟩
 
+/-- A pending entry survives ANY history without a reset or a response for its ID — any number of
+    drains, exports, duplicate requests, failing calls, other IDs' traffic; there is no bound after
+    which the log gives up on it. -/
+theorem pending_entry_survives_until_its_response_or_a_reset (pre mid : List Op) (e : Ent)
+    (he : e ∈ logAfter pre) (hp : e.done = false)
+    (hm : ∀ o ∈ mid, o ≠ .reset ∧ o ≠ .res e.id) : e ∈ logAfter (pre ++ mid) := by
+  show e ∈ Spec.after [] 0 (pre ++ mid)
+  rw [Spec.after_append]
+  exact pending_stays mid _ _ e he hp hm
+
+/-- In particular for every n: n export-and-resets in a row keep a pending entry (the seeded defect
+    C17-J dropped it at the 257th), and its late response is then attached and the entry returned,
+    with its own request, by the next export-and-reset. -/
+theorem pending_entry_survives_any_number_of_drains (pre : List Op) (n : Nat) (e : Ent)
+    (he : e ∈ logAfter pre) (hp : e.done = false) :
+    e ∈ logAfter (pre ++ List.replicate n .xreset) ∧
+    ∃ es e', run init 0 (pre ++ List.replicate n .xreset ++ [.res e.id] ++ [.xreset]) =
+        run init 0 (pre ++ List.replicate n .xreset ++ [.res e.id]) ++ [.log es] ∧
+      e' ∈ es ∧ e'.id = e.id ∧ e'.rq = e.rq ∧ e'.done = true := by
+  have h1 : e ∈ logAfter (pre ++ List.replicate n .xreset) :=
+    pending_entry_survives_until_its_response_or_a_reset pre _ e he hp (by
+      intro o ho
+      rw [List.mem_replicate] at ho
+      rw [ho.2]
+      exact ⟨fun h => Op.noConfusion h, fun h => Op.noConfusion h⟩)
+  exact ⟨h1, completed_returned_by_next_export_and_reset (pre ++ List.replicate n .xreset)
+    [.res e.id] e h1 (by intro o ho; simp at ho; subst ho; rfl) (Or.inr (by simp))⟩
+
 /-- "Each response attached to its own request": in every list handed out at any point of any
     history, an entry's request is the `req` operation of its ID that the tag names, and its
     response (if any) is a later `res` operation of the same ID. -/
